@@ -39,6 +39,9 @@ IU = 'internal_utils'
 
 
 def run(prog, res):
+  from ..rules import guards as _gsc
+  _gsc.check_self_clip_order(prog, res, [f for m in ['linear_lib', 'categorical_calibration_lib', 'internal_utils'] for f in prog.module(m).all_functions()])
+  res.floor('X5', 4)
   _masks(prog, res)
   _project_steps(prog, res)
   _partial_order(prog, res)
